@@ -160,9 +160,13 @@ def certificate(P, alpha, y, x, depth=0, tol=None):
         th = ay[nz] - ax[nz]
         theta = float(np.median(th))
         e1 = float(np.max(np.abs(th - theta)))
-        ph = float(np.max(np.abs(x[nz] / ax[nz] - y[nz] / ay[nz])))
+        # phase agreement per element: relative, or - for entries far below the data's scale,
+        # whose phase is only known to (absolute round-off)/|x_i| - as an absolute deviation
+        phv = np.abs(x[nz] / ax[nz] - y[nz] / ay[nz])
+        badph = (phv > max(1e-7, 10 * tol)) & (ax[nz] * phv > eps * 10)
+        ph = float(np.max(phv[badph])) if badph.any() else 0.0
         e0 = float(np.max(ay[~nz] - theta)) if (~nz).any() else 0.0
-        ok = theta >= -eps and e1 <= eps * 10 and ph <= max(1e-7, 10 * tol) and e0 <= eps * 10
+        ok = theta >= -eps and e1 <= eps * 10 and not badph.any() and e0 <= eps * 10
         return ok, "L1Proj:boundary", "" if ok else (
             "not a soft-threshold of the input: theta=%.6g spread=%.3g phase=%.3g zeros=%.3g"
             % (theta, e1, ph, e0))
